@@ -233,21 +233,29 @@ impl Snapshot {
 		// Check the tables in each level for the key
 		for (level_idx, level) in (&level_manifest.levels).into_iter().enumerate() {
 			if level_idx == 0 {
-				// Level 0: Tables can overlap, check all
+				// Level 0: Tables can overlap, check all. They overlap in sequence numbers
+				// too (memtables are filled by concurrent committers, and a batch that is
+				// re-applied after a rotation leaves its first entries in the older one),
+				// so the order of the tables does not tell which hit is the newest: take
+				// the visible version with the largest sequence number.
+				let mut newest: Option<(InternalKey, Value)> = None;
 				for table in level.tables.iter() {
 					if !table.is_key_in_key_range(&ikey) {
 						continue; // Skip this table if the key is not in its range
 					}
 
-					let maybe_item = table.get(&ikey)?;
-
-					if let Some(item) = maybe_item {
-						let ikey = &item.0;
-						if ikey.is_tombstone() {
-							return Ok(None); // Key is a tombstone, return None
+					if let Some(item) = table.get(&ikey)? {
+						if newest.as_ref().is_none_or(|n| item.0.seq_num() > n.0.seq_num()) {
+							newest = Some(item);
 						}
-						return Ok(Some((item.1, ikey.seq_num()))); // Key found, return the value
 					}
+				}
+				if let Some(item) = newest {
+					let ikey = &item.0;
+					if ikey.is_tombstone() {
+						return Ok(None); // Key is a tombstone, return None
+					}
+					return Ok(Some((item.1, ikey.seq_num()))); // Key found, return the value
 				}
 			} else {
 				// Level 1+: Non-overlapping, binary search for the one table
